@@ -11,16 +11,17 @@ let rec take n l = if n <= 0 then [] else match l with [] -> [] | x :: l' -> x :
 let field_le t bound =
   if t <> [] && all_digits t && N.leb (dec_value t) (n_of_int bound) then Some (dec_value t) else None
 
-(* specification of the 227 parser, as characterised by C06_pasv_sound/complete/rejects *)
+(* specification of the 227 parser, as characterised by C06_pasv_iff: between the first "(" and the last ")" exactly six
+   pieces at the commas (nothing dropped), each a decimal number <= 255; address = the four numbers, port = 256*p1 + p2 *)
 let spec_pasv (s : n list) : string =
   let b = index_first lpar 0 s and e = index_last rpar s in
   if b < 0 || e < 0 || b >= e then "none" else
   let inner = take (e - b - 1) (drop (b + 1) s) in
-  match drop_last_empty (pieces comma inner) with
+  match pieces comma inner with
   | [t0; t1; t2; t3; t4; t5] ->
-    (match field_le t4 255, field_le t5 255 with
-     | Some hi, Some lo ->
-       hex_of_bytes (t0 @ [dot] @ t1 @ [dot] @ t2 @ [dot] @ t3) ^ " " ^ string_of_n (N.add (N.mul hi (n_of_int 256)) lo)
+    (match List.map (fun t -> field_le t 255) [t0; t1; t2; t3; t4; t5] with
+     | [Some a; Some b; Some c; Some d; Some hi; Some lo] ->
+       hex_of_bytes (dotted a b c d) ^ " " ^ string_of_n (N.add (N.mul hi (n_of_int 256)) lo)
      | _ -> "none")
   | _ -> "none"
 
@@ -88,7 +89,11 @@ let run_frame_inner nrecv ending sched pre t : string =
     let tr = { unread = bytes_of_hex t; sched = List.map nat_of_int (ints_of sched);
                tend = (if ending = "err" then EndErr else EndEof) } in
     let s0 = { buffer = bytes_of_hex pre; tr = tr } in
-    let (rs, s1) = recv_n (nat_of_int (int_of_string nrecv)) cfg s0 in
+    (* [nrecv] is a number of receive steps, or a history such as RSRRS (R = receive step, S = a command is sent) *)
+    let ops = if nrecv <> "" && String.for_all (fun ch -> ch >= '0' && ch <= '9') nrecv
+              then List.init (int_of_string nrecv) (fun _ -> CRecv)
+              else List.map (fun ch -> if ch = 'S' then CSend else CRecv) (List.init (String.length nrecv) (String.get nrecv)) in
+    let (rs, s1) = run_ops ops cfg s0 in
     let show = function
       | Ok r -> "ok:" ^ string_of_n r.code ^ ":" ^ hex_of_bytes r.text
       | Exn -> "exn" | OutOfFuel -> "livelock" in
